@@ -456,6 +456,9 @@ func runC20(tier, replay string) {
 		cfgs = c20Configs
 	}
 	nh, steps := r.N(20, 150), r.N(30, 40)
+	if raceEnabled && r.Thorough() {
+		nh = 25 // the race detector slows the SQLite-heavy sequential part ~10x; the race build is there for the concurrent part
+	}
 	if rf != nil && rf.Witness.Part == "seq" {
 		steps = rf.Witness.Steps
 	}
